@@ -1083,9 +1083,32 @@ impl BackupManager {
             }
         }
 
+        let min_age_seconds = policy.min_age_days * day;
+
+        // A retained backup is only restorable together with its whole parent chain
+        // (incremental -> ... -> full). Retain every ancestor of every backup that
+        // survives this prune, whether it survives through a bucket or through min_age.
+        let parent_of: HashMap<Uuid, Option<Uuid>> =
+            backups.iter().map(|b| (b.id, b.parent_id)).collect();
+        let survivors: Vec<Uuid> = backups
+            .iter()
+            .filter(|b| {
+                to_keep.contains(&b.id) || now.saturating_sub(b.timestamp) < min_age_seconds
+            })
+            .map(|b| b.id)
+            .collect();
+        for id in survivors {
+            let mut current = parent_of.get(&id).copied().flatten();
+            while let Some(parent_id) = current {
+                if !to_keep.insert(parent_id) {
+                    break;
+                }
+                current = parent_of.get(&parent_id).copied().flatten();
+            }
+        }
+
         // Delete backups not in keep set, respecting min_age_days
         let mut deleted = Vec::new();
-        let min_age_seconds = policy.min_age_days * day;
 
         for backup in &backups {
             if !to_keep.contains(&backup.id) {
